@@ -66,6 +66,9 @@ func (d *Date) MarshalJSON() ([]byte, error) {
 // UnmarshalJSON implements the json.Unmarshaler interface. The time must be a
 // quoted string in the RFC 3339 format.
 func (d *Date) UnmarshalJSON(data []byte) error {
+	if len(data) < len(`""`) {
+		return fmt.Errorf("%w: Cannot parse %s as %q", ErrSQLType, data, dateFormat)
+	}
 	tim, err := time.Parse(dateFormat, string(data[1:len(data)-1]))
 	if err != nil {
 		return fmt.Errorf("%w: Cannot parse %s as %q", ErrSQLType, data, dateFormat)
